@@ -12,6 +12,8 @@ import (
 	"go/ast"
 	"go/types"
 	"strconv"
+
+	"golang.org/x/tools/go/types/typeutil"
 )
 
 // inlineTarget: g is spliced into its only caller.
@@ -23,8 +25,24 @@ func (p *Prog) inlineTarget(g *Func) bool {
 		return v
 	}
 	v := func() bool {
-		if g.Decl == nil || g.Obj == nil || g.Body == nil || !g.isHandWritten() || g.Obj.Exported() {
+		if g.Decl == nil || g.Obj == nil || g.Body == nil || !g.isHandWritten() {
 			return false
+		}
+		// exported functions are API; a method of an unexported type is not reachable from outside whatever its name
+		if g.Obj.Exported() {
+			unexportedRecv := false
+			if g.Recv != nil {
+				T := g.Recv.Type()
+				if pt, ok := T.Underlying().(*types.Pointer); ok {
+					T = pt.Elem()
+				}
+				if nt, ok := types.Unalias(T).(*types.Named); ok && !nt.Obj().Exported() {
+					unexportedRecv = true
+				}
+			}
+			if !unexportedRecv {
+				return false
+			}
 		}
 		if pk := g.pkgName(); pk != "keeper" && pk != "service" && pk != "types" {
 			return false
@@ -36,6 +54,15 @@ func (p *Prog) inlineTarget(g *Func) bool {
 		// one call: an extracted block. Several calls: only a helper that is parametrised by a table entry or a
 		// function value (its behaviour is decided at each call site, where it is walked with the actual arguments)
 		if n == 1 {
+			return true
+		}
+		// an accessor of a helper object (a module struct wrapping an iterator, a keeper, function values): it is
+		// walked on the object it is called on
+		if n <= 12 && p.helperObjectMethod(g) {
+			return true
+		}
+		// a one-line wrapper around a bank / store primitive is that primitive at each of its call sites
+		if n <= 12 && p.thinPrimitiveWrapper(g) {
 			return true
 		}
 		// a value-returning helper stays a call (its value is reasoned about as a unit; its effects resolve when
@@ -113,6 +140,71 @@ func (p *Prog) refCount() map[*types.Func]int {
 		})
 	}
 	return p.refs
+}
+
+// thinPrimitiveWrapper: the body of g is a single call of an interface method (bank keeper, store, params).
+func (p *Prog) thinPrimitiveWrapper(g *Func) bool {
+	if len(g.Body.List) != 1 {
+		return false
+	}
+	var call *ast.CallExpr
+	switch s := g.Body.List[0].(type) {
+	case *ast.ReturnStmt:
+		if len(s.Results) == 1 {
+			call, _ = ast.Unparen(s.Results[0]).(*ast.CallExpr)
+		}
+	case *ast.ExprStmt:
+		call, _ = ast.Unparen(s.X).(*ast.CallExpr)
+	}
+	if call == nil {
+		return false
+	}
+	fo, ok := typeutil.Callee(g.Pkg.TypesInfo, call).(*types.Func)
+	if !ok {
+		return false
+	}
+	sig, ok := fo.Type().(*types.Signature)
+	if !ok || sig.Recv() == nil {
+		return false
+	}
+	_, isIface := sig.Recv().Type().Underlying().(*types.Interface)
+	return isIface
+}
+
+// helperObjectMethod: g is a method of a module-declared struct (not the keeper) that carries an iterator,
+// the keeper, a codec or function values.
+func (p *Prog) helperObjectMethod(g *Func) bool {
+	if g.Recv == nil || isKeeperType(g.Recv.Type()) {
+		return false
+	}
+	T := g.Recv.Type()
+	if pt, ok := T.Underlying().(*types.Pointer); ok {
+		T = pt.Elem()
+	}
+	nt, ok := types.Unalias(T).(*types.Named)
+	if !ok || nt.Obj().Pkg() == nil || p.ByPkg[nt.Obj().Pkg().Path()] == nil {
+		return false
+	}
+	if pk := nt.Obj().Pkg().Name(); pk != "keeper" && pk != "service" {
+		return false
+	}
+	st, ok := T.Underlying().(*types.Struct)
+	if !ok {
+		return false
+	}
+	for i := 0; i < st.NumFields(); i++ {
+		ft := st.Field(i).Type()
+		if isKeeperType(ft) || isCtxType(ft) {
+			return true
+		}
+		if _, isFn := ft.Underlying().(*types.Signature); isFn {
+			return true
+		}
+		if _, isIface := ft.Underlying().(*types.Interface); isIface {
+			return true // iterator, codec, sub-keeper
+		}
+	}
+	return false
 }
 
 // parametric: g takes a function value, or a module-declared struct carrying function values (a table entry).
@@ -272,6 +364,10 @@ func addFactEvents(ev *Event, facts FactSet, out *[]*Event) bool {
 		if facts.Has(nf) {
 			continue
 		}
+		// refuted by what the path already established (propositionally)
+		if (nf.T.Op == "||" || nf.T.Op == "&&") && facts.Holds(nf.T, nf.Neg) {
+			return false
+		}
 		facts.Add(nf)
 		n := *ev
 		n.Fact = nf
@@ -290,6 +386,10 @@ func (p *Prog) spliceable(f *Func, ev *Event) bool {
 	}
 	g := ev.CI.fn
 	if p.inlineTarget(g) {
+		// a pure predicate is already present as its definition in the condition it was used in
+		if p.predDef(g) != nil {
+			return false
+		}
 		return true
 	}
 	if ev.CI.name == "dyn" && g.Lit != nil && g.Parent != nil {
